@@ -117,11 +117,7 @@ func runJoin(bin, serverURL, code, out string, limit time.Duration) (int, string
 	if err := cmd.Start(); err != nil {
 		return -2, err.Error()
 	}
-	go func() {
-		fmt.Fprintln(stdin, "y") // accept the offer
-		time.Sleep(300 * time.Millisecond)
-		fmt.Fprintln(stdin, "y")
-	}()
+	go answerPrompts(stdin)
 	done := make(chan error, 1)
 	go func() { done <- cmd.Wait() }()
 	select {
